@@ -36,6 +36,7 @@ def check(run):
         F = run.facts(cfg)
         run.guard("C04.1.routing", cfg, lambda: rule_routing(run, F, cfg))
         run.guard("C04.2.precedence", cfg, lambda: rule_precedence(run, F, cfg))
+        run.guard("C04.2.precedence", cfg + "/table", lambda: rule_verdict_table(run, F, cfg))
         run.guard("C04.3.badfilter-id", cfg, lambda: rule_badfilter_id(run, F, cfg))
         run.guard("C04.4.badfilter-never-matches", cfg, lambda: rule_never_matches(run, F, cfg))
         b = run.borrow("C07", why="an $important rule must be found (with the enabled tags) to take precedence")
@@ -54,6 +55,10 @@ def rule_routing(run, F, cfg):
     def fail(name, v, d, why):
         bad.setdefault(name, []).append((R.fmt_val(v), sorted(d or []), why))
 
+    okg = tn.list_guards <= {("std::vec::Vec::is_empty(arg:network_filters)", 0)}
+    run.ob("C04.1.routing", "loop-runs-for-any-nonempty-list", okg,
+           f"the routing loop of Blocker::new is entered for every non-empty rule list (list-level guards on its "
+           f"paths: {sorted(tn.list_guards)})", config=cfg)
     for v in R.valuations({"exists": 0}):
         if not R.feasible(v):
             continue
@@ -320,6 +325,26 @@ def rule_id_encoding(run, c, cfg):
     run.ob("C04.3.badfilter-id", "id-encoding:all-components-mixed", not missing,
            f"compute_filter_id mixes every component into the identity (missing: {missing})",
            config=cfg)
+    # the separators themselves: constant expressions, pairwise distinct, and outside the range of a character
+    # (so that a marker cannot be mistaken for an element of a text component)
+    def _const_eval(e):
+        e = re.sub(r"[\w:]+=(\d+)", r"\1", e)
+        m = re.match(r"^\((\d+) (BitOr|BitXor|BitAnd|Add|Sub|Shl) (\d+)\)$", e)
+        if m:
+            a, op, b2 = int(m.group(1)), m.group(2), int(m.group(3))
+            return {"BitOr": a | b2, "BitXor": a ^ b2, "BitAnd": a & b2, "Add": a + b2, "Sub": a - b2, "Shl": a << b2}[op] & (2**64 - 1)
+        return int(e) if re.match(r"^\d+$", e) else None
+    seps = []
+    for b, i, params, e in mixes:
+        if params or "arg:mask" in e:
+            continue
+        m = re.match(r"^\(core::num::wrapping_mul\(loop\(var:hash\), \d+\) BitXor (.*)\)$", e)
+        seps.append((_const_eval(m.group(1)) if m else None, e[-60:]))
+    vals = [v for v, _ in seps]
+    run.ob("C04.3.badfilter-id", "id-encoding:markers-distinct",
+           len(vals) >= 4 and None not in vals and len(set(vals)) == len(vals) and all(v > 0x10FFFF for v in vals),
+           f"the component markers are constants, pairwise distinct and larger than any character value "
+           f"({[hex(v) if v is not None else None for v in vals]})", config=cfg)
     # a separator for component q: a mix of `hash` whose value depends on no component, that
     # dominates every fold of q and from which no fold of the previous component p is reachable
     for p, q in zip(present, present[1:]):
@@ -374,3 +399,195 @@ def rule_never_matches(run, F, cfg):
     run.ob("C04.4.badfilter-never-matches", "matches-order", ok3,
            "NetworkFilter::matches evaluates check_options first and check_pattern only if it "
            "returned true", site=m.loc(0), config=cfg)
+
+
+def rule_verdict_table(run, F, cfg):
+    """The verdict of check_parameterised as a truth table over the list-probe outcomes, extracted with the
+    path interpreter and compared, valuation by valuation, with the precedence specification:
+        filter    = importants hit, else (unless previously matched) tagged-or-plain hit
+        exception = consulted iff (no filter and (previously matched or forced)) or (filter and not important)
+        important = filter is Some and is $important
+        matched   = exception is None and (filter is Some or previously matched)
+        removeparam rewrite attempted iff not important
+    Head = up to the redirect probe (chooses filter / exception); tail = after it (computes the result)."""
+    from analysis.pathinterp import enumerate_paths, path_value
+    import itertools
+    f = F.fn("blocker::Blocker::check_parameterised")
+    probes = f.calls(r"^network_filter_list::NetworkFilterList::check(_all)?$")
+    by_list = {}
+    for b, t in probes:
+        m = re.search(r"arg:self\.(\w+)$", f.expr_operand(t["args"][0]))
+        by_list.setdefault(m.group(1) if m else "?", []).append(b)
+    red = by_list.get("redirects", [None])[0]
+    fl = [l for l, n in f.varnames.items() if n == "filter"]
+    el = [l for l, n in f.varnames.items() if n == "exception"]
+    if red is None or len(fl) != 1 or len(el) != 1:
+        run.ob("C04.2.precedence", "table:anchors", False, "redirect probe / `filter` / `exception` locals not found",
+               status="UNDISCHARGED", config=cfg)
+        return
+
+    def sh(e):
+        return re.sub(r"network_filter_list::NetworkFilterList::check\(arg:self\.(\w+), [^()]*(\([^()]*\))?[^()]*\)", r"probe(\1)", e)
+
+    # the or_else closure probes `filters`
+    oc = [c for c in F.closures_of(f.name) if any(re.search(r"\.filters$|up:self\.filters$|\.filters\b", c.expr_operand(t["args"][0]))
+                                                    for b, t in c.calls(r"NetworkFilterList::check$"))]
+    run.ob("C04.2.precedence", "table:or_else-probes-filters", len(oc) == 1,
+           "the fallback of filters_tagged.check(..).or_else(..) is filters.check(..)", config=cfg)
+
+    def classify_filter(v):
+        v = sh(v or "")
+        if v == "probe(importants)":
+            return "importants"
+        if re.match(r"^std::option::Option::or_else\(probe\(filters_tagged\), closure\[", v):
+            return "others"
+        return None
+
+    head = []
+    unknown = set()
+    for p in enumerate_paths(f, stop_blocks=[red]):
+        if p.end != f"stop:{red}":
+            continue
+        a = {}
+        for e, v in p.conds:
+            e2 = sh(e)
+            if e2 == "arg:request.is_supported":
+                continue
+            m = re.match(r"^std::option::Option::is_(none|some)\(probe\(importants\)\)$", e2)
+            if m:
+                a["I"] = (1 - v) if m.group(1) == "none" else v
+            elif e2 == "arg:matched_rule":
+                a["M"] = v
+            elif e2 == "arg:force_check_exceptions":
+                a["X"] = v
+            elif re.match(r"^discr\((std::option::Option::as_ref\()?φ\{probe\(importants\) \| std::option::Option::or_else\(", e2) and v in (0, 1):
+                a["FS"] = v
+            elif re.match(r"^std::option::Option::is_(none|some)\(φ\{probe\(importants\) \| std::option::Option::or_else\(", e2):
+                a["FS"] = v if "is_some" in e2 else 1 - v
+            elif re.match(r"^filters::network::NetworkFilterMaskHelper::is_important\(φ\{probe\(importants\)", e2):
+                a["P"] = v
+            else:
+                unknown.add(e2[:120])
+        choice = classify_filter(path_value(f, p, fl[0]))
+        ev = sh(path_value(f, p, el[0]) or "")
+        exc = "E" if ev == "probe(exceptions)" else ("0" if ev == "std::option::Option::None{}" else None)
+        head.append((a, choice, exc, p))
+    ok_parse = not unknown and all(c and x for a, c, x, p in head) and len(head) >= 6
+    run.ob("C04.2.precedence", "table:head-modelled", ok_parse,
+           f"every decision before the redirect probe is one of the modelled atoms (importants hit, matched_rule, "
+           f"force_check_exceptions, filter is Some, filter is important) and `filter` / `exception` take modelled "
+           f"values on each of the {len(head)} paths; unmodelled: {sorted(unknown)[:3]}",
+           status=None if ok_parse else "UNDISCHARGED", site=f.loc(0), config=cfg)
+    bad = []
+    n_val = 0
+    if ok_parse:
+        for I, TF, M, X, E in itertools.product((0, 1), repeat=5):
+            choice_s = "others" if (I == 0 and M == 0) else "importants"
+            FS_s = TF if choice_s == "others" else I
+            P = 1 if (FS_s and choice_s == "importants") else 0     # only `importants` holds $important rules (C04.1)
+            consulted = (FS_s == 0 and (M or X)) or (FS_s == 1 and P == 0)
+            exc_s = E if consulted else 0
+            n_val += 1
+            hits = []
+            for a, choice, exc, p in head:
+                fs_here = TF if choice == "others" else I
+                if a.get("I", I) != I or a.get("M", M) != M or a.get("X", X) != X:
+                    continue
+                if "FS" in a and a["FS"] != fs_here:
+                    continue
+                if "P" in a and a["P"] != P:
+                    continue
+                hits.append((choice, exc, fs_here))
+            got = {(fs, (E if exc == "E" else 0), ch if I else "-") for ch, exc, fs in hits}
+            want = {(FS_s, exc_s, "importants" if I else "-")}
+            if got != want:
+                bad.append((dict(I=I, TF=TF, M=M, X=X, E=E), sorted(got, key=str), sorted(want, key=str)))
+    run.ob("C04.2.precedence", "table:head", ok_parse and not bad,
+           f"for all {n_val} valuations of (importants hit, tagged-or-plain hit, matched_rule, force_check_exceptions, "
+           f"exception hit) the extracted choice of `filter` and `exception` equals the specification; first "
+           f"difference (valuation, extracted, specified): {bad[:1]}", site=f.loc(0), config=cfg)
+    # ---------------- tail
+    aggs = [(b, i, st) for b, i, st in f.statements()
+            if st["k"] == "assign" and st["rv"]["k"] == "agg" and st["rv"].get("adt") == "blocker::BlockerResult"]
+    if len(aggs) != 1:
+        return
+    ab = aggs[0][0]
+    fields = dict(zip(aggs[0][2]["rv"]["fields"], aggs[0][2]["rv"]["ops"]))
+    starts = [b for b, t in f.calls(r"^std::option::Option::is_(some|none)$")
+              if f.dominates(b, ab) and red in f.dominators().get(b, set())]
+    if not starts:
+        run.ob("C04.2.precedence", "table:tail-anchor", False, "start of the result computation not found",
+               status="UNDISCHARGED", config=cfg)
+        return
+    start = min(starts)
+    cl = {c.name: c for c in F.closures_of(f.name)}
+    tail = []
+    unknown = set()
+    dflt = None
+    for p in enumerate_paths(f, start=start):
+        if p.end != "return":
+            continue
+        a = {}
+        for e, v in p.conds:
+            e2 = sh(e)
+            m = re.match(r"^std::option::Option::is_(none|some)\(φ\{probe\(importants\) \| std::option::Option::or_else\(", e2)
+            m2 = re.match(r"^std::option::Option::is_(none|some)\(φ\{probe\(exceptions\) \| std::option::Option::None\{\}\}\)$", e2)
+            m3 = re.match(r"^std::option::Option::unwrap_or_else\(std::option::Option::map\((std::option::Option::as_ref\()?φ\{probe\(importants\).*closure\[([^\]]+)\]\(\)\), closure\[([^\]]+)\]\(\)\)$", e2)
+            if m:
+                a["FS"] = v if m.group(1) == "some" else 1 - v
+            elif m2:
+                a["ES"] = v if m2.group(1) == "some" else 1 - v
+            elif m3:
+                a["U"] = v
+                mapc, defc = cl.get(m3.group(2)), cl.get(m3.group(3))
+                okc = mapc is not None and bool(mapc.calls(r"NetworkFilterMaskHelper::is_important$")) and defc is not None \
+                    and defc.expr_local(0) in ("false", "true")
+                dflt = {"false": 0, "true": 1}.get(defc.expr_local(0)) if okc else None
+                if not okc:
+                    unknown.add("important closures: " + e2[:80])
+            elif e2 == "arg:matched_rule":
+                a["M"] = v
+            else:
+                unknown.add(e2[:120])
+        vals = {}
+        for k in ("matched", "important", "rewritten_url"):
+            op = fields[k]
+            vals[k] = sh(path_value(f, p, op["pl"]["l"]) or "") if op.get("pl") and not op["pl"]["p"] else sh(f.expr_operand(op))
+        tail.append((a, vals))
+    ok_parse = not unknown and len(tail) >= 4
+    run.ob("C04.2.precedence", "table:tail-modelled", ok_parse,
+           f"every decision of the result computation is one of: filter is Some, the important test "
+           f"(map(is_important).unwrap_or_else(const)), exception is None, matched_rule ({len(tail)} paths); "
+           f"unmodelled: {sorted(unknown)[:3]}", status=None if ok_parse else "UNDISCHARGED", config=cfg)
+    bad = []
+    n_val = 0
+    if ok_parse:
+        for FS, P, ES, M in itertools.product((0, 1), repeat=4):
+            if not FS and P:
+                continue
+            U = P if FS else (dflt or 0)
+            n_val += 1
+            got = set()
+            for a, vals in tail:
+                if a.get("FS", FS) != FS or a.get("ES", ES) != ES or a.get("M", M) != M or a.get("U", U) != U:
+                    continue
+                mv = {"true": 1, "false": 0, "arg:matched_rule": M}.get(vals["matched"])
+                iv = 0 if vals["important"] == "false" else (U if "unwrap_or_else(" in vals["important"] else None)
+                rw = 1 if vals["rewritten_url"].startswith("blocker::Blocker::apply_removeparam(") else \
+                    (0 if vals["rewritten_url"] == "std::option::Option::None{}" else None)
+                got.add((mv, iv, rw))
+            want = {((1 - ES) & (FS | M), FS & P, 1 - (FS & P))}
+            if got != want:
+                bad.append((dict(FS=FS, P=P, ES=ES, M=M), sorted(got, key=str), sorted(want)))
+    run.ob("C04.2.precedence", "table:tail", ok_parse and not bad,
+           f"for all {n_val} valuations of (filter is Some, filter is important, exception is Some, matched_rule): "
+           f"matched = !exception && (filter || matched_rule), important = filter && is_important, removeparam is "
+           f"attempted iff !important; first difference (valuation, extracted (matched, important, rewrite), "
+           f"specified): {bad[:1]}", site=f.loc(ab), config=cfg)
+    # the reported strings come from the chosen filter / exception
+    ex = sh(f.expr_operand(fields["exception"]))
+    fi = sh(f.expr_operand(fields["filter"]))
+    run.ob("C04.2.precedence", "table:reported-rules",
+           "probe(exceptions)" in ex and "probe(importants)" not in ex and "probe(importants)" in fi and "probe(exceptions)" not in fi,
+           "BlockerResult.exception is rendered from the exception hit and BlockerResult.filter from the chosen filter",
+           config=cfg, detail=f"exception: {ex[:120]}; filter: {fi[:120]}")
